@@ -101,7 +101,46 @@ func dynFocusSchema(r *rand.Rand) *schema.BodySchema {
 		}
 		depKeyIndex[svc] = append(depKeyIndex[svc], dk)
 	}
-	return &schema.BodySchema{Blocks: map[string]*schema.BlockSchema{"resource": res, "svc": svc}}
+	// a block type whose static body has an empty (non-nil) attribute map, as schema.NewBodySchema() builds it:
+	// everything comes from the label-selected dependent body
+	plug := &schema.BlockSchema{
+		Labels:        []*schema.LabelSchema{{Name: "kind", IsDepKey: true}},
+		Body:          schema.NewBodySchema(),
+		DependentBody: map[schema.SchemaKey]*schema.BodySchema{},
+		MinItems:      2,
+	}
+	for _, v := range []string{"aws", "gcp"} {
+		dk := schema.DependencyKeys{Labels: []schema.LabelDependent{{Index: 0, Value: v}}}
+		db := &schema.BodySchema{Attributes: map[string]*schema.AttributeSchema{
+			v + "_only": {IsOptional: true, Constraint: schema.LiteralType{Type: cty.String}},
+			"common":    {IsOptional: true, Constraint: schema.LiteralType{Type: cty.Number}},
+		}}
+		if v == "aws" {
+			// declarations the block stands for, listed in no particular order
+			db.TargetableAs = schema.Targetables{{Address: lang.Address{lang.RootStep{Name: "plug"}, lang.AttrStep{Name: "aws"}}, ScopeId: "resource", AsType: cty.DynamicPseudoType,
+				NestedTargetables: schema.Targetables{
+					{Address: lang.Address{lang.RootStep{Name: "plug"}, lang.AttrStep{Name: "aws"}, lang.AttrStep{Name: "zone"}}, ScopeId: "resource", AsType: cty.String},
+					{Address: lang.Address{lang.RootStep{Name: "plug"}, lang.AttrStep{Name: "aws"}, lang.AttrStep{Name: "name"}}, ScopeId: "resource", AsType: cty.String},
+					{Address: lang.Address{lang.RootStep{Name: "plug"}, lang.AttrStep{Name: "aws"}, lang.AttrStep{Name: "id"}}, ScopeId: "resource", AsType: cty.String},
+				}}}
+		}
+		plug.DependentBody[schema.NewSchemaKey(copyKeys(dk))] = db
+		depKeyIndex[plug] = append(depKeyIndex[plug], dk)
+	}
+	// one block schema object used in two places: inside a dependent body under the dynamic-blocks
+	// extension, and under a plain block
+	shared := inner()
+	for k := range res.DependentBody {
+		res.DependentBody[k].Blocks["conn"] = shared
+	}
+	if shared.Body != nil {
+		shared.MinItems = 1
+	}
+	plain := &schema.BlockSchema{MinItems: 1, Body: &schema.BodySchema{
+		Attributes: map[string]*schema.AttributeSchema{"note": {IsOptional: true, Constraint: schema.LiteralType{Type: cty.String}}},
+		Blocks:     map[string]*schema.BlockSchema{"conn": shared},
+	}}
+	return &schema.BodySchema{Blocks: map[string]*schema.BlockSchema{"resource": res, "svc": svc, "plug": plug, "plain": plain}}
 }
 
 func genType(r *rand.Rand, d int) cty.Type {
